@@ -326,6 +326,11 @@ impl Module {
                     let decl = &mut module.global_registry[id.0 as usize];
                     let set = decl.lang_slot.set.unwrap_or(default_set);
 
+                    // Only globals that are provided from outside the shader are bound
+                    if decl.storage_class != GlobalStorage::Extern {
+                        return;
+                    }
+
                     // If static samplers are implemented purely in shader source then do not give them slots
                     if decl.static_sampler.is_some() && !params.static_samplers_have_slots {
                         return;
